@@ -19,7 +19,8 @@ try:
     snap = os.path.join(d, 'snap')
     shutil.copytree(cache, snap)
     wrong = 0
-    for pos in range(at, min(len(data), at + 160)):
+    occurrences = [i for i in range(len(data)) if data.startswith(b'Tq', i)]    # flip 'T' -> 'U' in each, one at a time
+    for pos in occurrences:
         shutil.rmtree(cache); shutil.copytree(snap, cache)
         with open(db, 'r+b') as fh:
             fh.seek(pos); b = fh.read(1); fh.seek(pos); fh.write(bytes([b[0] ^ 0x01]))
